@@ -652,6 +652,14 @@ func c15Family(ctx *Ctx) error {
 		if err != nil {
 			return err
 		}
+		var rpp struct {
+			Input map[string]interface{} `json:"input"`
+		}
+		if json.Unmarshal(b, &rpp) == nil && rpp.Input["kind"] == "many-other-ids" {
+			n, _ := rpp.Input["others"].(float64)
+			fmt.Printf("replay: %d events with other ids in between: %q (empty = the watched event reads the same)\n", int(n), c15ManyOtherIDs(int(n)))
+			return nil
+		}
 		var rp struct {
 			Input C15Case `json:"input"`
 		}
@@ -852,6 +860,23 @@ func c15Family(ctx *Ctx) error {
 			res.Violate(common.Violation{Kind: "monitor", Clause: cl, Input: map[string]interface{}{"kind": "alias-database", "note": "re-run ./check C15 quick: the block is deterministic"}, Impl: pair[1], Model: pair[0]})
 		}
 	}
+	// 2e. very many other ids in between: an event whose ids were put into the package caches by hand (and root's) is
+	// resolved, then events with ids nobody else uses (quick: 2^15, thorough: 2^18), then the first event again from
+	// fresh messages: it reads the same (whatever the caches do to stay small, they do not forget what they were told)
+	if !stop() {
+		n := 1 << 15
+		if ctx.Thorough() {
+			n = 1 << 18
+		}
+		in := map[string]interface{}{"kind": "many-other-ids", "others": n}
+		guardEnter(in)
+		cl := c15ManyOtherIDs(n)
+		guardLeave()
+		res.Hist("many_other_ids_in_between")
+		if cl != "" {
+			res.Violate(common.Violation{Kind: "monitor", Clause: cl, Input: in})
+		}
+	}
 	// 3. random histories
 	for i := 0; i < ctx.N(1500, 60000) && !stop(); i++ {
 		c := genC15Case(rng)
@@ -875,4 +900,46 @@ func c15Family(ctx *Ctx) error {
 		}
 	}
 	return nil
+}
+
+// c15ManyOtherIDs: see block 2e of the C15 driver.
+func c15ManyOtherIDs(others int) string {
+	resolve := func(lines ...string) (string, error) {
+		var msgs []*auparse.AuditMessage
+		for _, l := range lines {
+			m, err := auparse.ParseLogLine(l)
+			if err != nil {
+				return "", err
+			}
+			msgs = append(msgs, m)
+		}
+		ev, err := aucoalesce.CoalesceMessages(msgs)
+		if err != nil {
+			return "", err
+		}
+		aucoalesce.ResolveIDs(ev)
+		b, err := json.Marshal(ev)
+		return string(b), err
+	}
+	watched := []string{
+		`type=SYSCALL msg=audit(1492752520.441:8832): arch=c000003e syscall=2 success=yes exit=3 a0=7ffd0dc80040 a1=0 a2=1b6 a3=0 items=1 ppid=1 pid=2 auid=1000 uid=1000 gid=1000 euid=0 suid=1001 fsuid=48 egid=48 sgid=0 fsgid=1000 tty=pts0 ses=11 comm="cat" exe="/bin/cat" key="k"`,
+		`type=PATH msg=audit(1492752520.441:8832): item=0 name="/etc/x" inode=17 dev=08:01 mode=0100644 ouid=1001 ogid=48 rdev=00:00 nametype=NORMAL`}
+	first, err := resolve(watched...)
+	if err != nil {
+		return ""
+	}
+	for i := 0; i < others; i++ {
+		id := 3000000000 + i
+		if _, err := resolve(fmt.Sprintf(`type=SYSCALL msg=audit(1492752600.100:%d): arch=c000003e syscall=2 success=yes exit=3 a0=0 a1=0 a2=0 a3=0 items=0 ppid=1 pid=%d auid=%d uid=%d gid=%d euid=%d suid=%d fsuid=%d egid=%d sgid=%d fsgid=%d tty=pts0 ses=12 comm="cat" exe="/bin/cat"`,
+			9000+i, 100+i, id, id, id+1, id, id, id, id+1, id+1, id+1)); err != nil {
+			return ""
+		}
+		if i&(i+1) == 0 && i >= 255 || i == others-1 {
+			again, _ := resolve(watched...)
+			if again != first {
+				return fmt.Sprintf("isolation: an event whose ids the caches were told by hand reads differently after %d events with other ids were resolved: first %s, then %s", i+1, trunc(first, 600), trunc(again, 600))
+			}
+		}
+	}
+	return ""
 }
